@@ -211,7 +211,7 @@ theorem count_graph_E (g : DGraph) (a b : Nat) :
 
 theorem count_releasedBy (g : DGraph) (cf : Conf) (a : Nat) (m : Msg) (b : Nat) :
     (releasedBy g cf a m).count b =
-      g.E.countP (fun e => (e.1 == a && cf.place e.2.1 == m.dst && m.keys.contains e.2.2) && e.2.1 == b) := by
+      g.E.countP (fun e => (e.1 == a && cf.place e.2.1 == m.dst && (m.keys.contains e.2.2 || g.isCtl a e.2.2)) && e.2.1 == b) := by
   unfold releasedBy
   rw [List.count_eq_countP, List.countP_map, List.countP_filter]
   apply List.countP_congr
